@@ -1320,7 +1320,8 @@ func c13stripe(tr *vw.Trace, e *c13env, r *vw.Rng, id string, big bool) {
 		e.setFaults(nil, nil, nil)
 		if tag == "reconstruct-too-few" {
 			// MONITOR fail closed: error and no bytes -- only meaningful when the whole probe lies in this tract
-			single := p.inoff+int64(p.length) <= TL && t.pos == int(p.off/TL)
+			// (a request that needs no byte of the tract may be answered without any piece)
+			single := p.inoff+int64(p.length) <= TL && t.pos == int(p.off/TL) && p.inoff < int64(t.length)
 			if single && (cls2 != 2 || n2 != 0) {
 				vw.Report(vw.Violation{Property: c13prop, Signature: "fail-closed/client-returned-data-with-too-few-pieces",
 					What: "fewer than n pieces answered but the client returned bytes or no error", Case: id,
